@@ -77,9 +77,11 @@ pub(crate) const EMPTY: u8 = 2;
 pub(crate) const UNREPRESENTABLE: u8 = 3;
 
 /// The contract of `merge` for one concrete pair, in both argument orders. `expect`
-/// is the outcome class the statement requires for this pair (a single query when
-/// the intersection can be written as one, Empty when it is empty, Unrepresentable
-/// only when it is neither), or ANY.
+/// is the outcome class the statement requires for this pair: SUCCESS where Sass merges the
+/// two queries into one, EMPTY where the intersection is empty (the inner rule must be
+/// dropped), ANY otherwise - "kept nested" is never demanded, because an implementation
+/// that finds a correct single query for such a pair still satisfies the property (the
+/// semantic clauses above already forbid a wrong Success or Empty there).
 pub(crate) fn check_merge(q1: &MediaQuery, q2: &MediaQuery, expect: u8) {
     let e = any_env();
     let both = sat(q1, e) && sat(q2, e);
